@@ -253,7 +253,7 @@ for compound outputs). -/
 theorem sum_spec (t : Table) (wf : t.WF = true) (hp : t.hitPolicy = .collectSum)
     (hne : matchingRules t ≠ []) :
     evaluate t = .ok (if t.componentNames.length > 1 then .null else Spec.sum (firsts t)) ∧
-    (∀ n ns, allNums (firsts t) = some (n :: ns) → Spec.sum (firsts t) = .num (ns.foldl (· + ·) n)) ∧
+    (∀ n ns, allNums (firsts t) = some (n :: ns) → Spec.sum (firsts t) = .num (ns.foldl DNum.addR n)) ∧
     (allNums (firsts t) = none → Spec.sum (firsts t) = .null) := by
   refine ⟨?_, ?_, ?_⟩
   · simp only [evaluate, hp, agg_spec _ bifSum t wf hne, bifSum_eq]
@@ -270,7 +270,7 @@ theorem min_spec (t : Table) (wf : t.WF = true) (hp : t.hitPolicy = .collectMin)
   refine ⟨?_, ?_⟩
   · simp only [evaluate, hp, agg_spec _ bifMin t wf hne, bifMin_eq]
   · intro n ns h
-    exact ⟨minInt n ns, by simp [Spec.min, h], minInt_spec n ns⟩
+    exact ⟨minNum n ns, by simp [Spec.min, h], minNum_spec n ns⟩
 
 /-- COLLECT >: the maximum of the matching outputs when all are numbers or all are strings
 (null otherwise — a null among the outputs included, as for C< — and null for compound
@@ -283,7 +283,92 @@ theorem max_spec (t : Table) (wf : t.WF = true) (hp : t.hitPolicy = .collectMax)
   refine ⟨?_, ?_⟩
   · simp only [evaluate, hp, agg_spec _ bifMax t wf hne, bifMax_eq]
   · intro n ns h
-    exact ⟨maxInt n ns, by simp [Spec.max, h], maxInt_spec n ns⟩
+    exact ⟨maxNum n ns, by simp [Spec.max, h], maxNum_spec n ns⟩
+
+/-! ### Numbers are exact decimals
+
+`DTValue.num` carries a `DNum` (`Model/DNum.lean`): the value `coeff / 10^scale` of a FEEL
+number in normal form.  The three theorems below say what that means for the statements above:
+equality of outputs (ANY, the positions of PRIORITY / OUTPUT ORDER, `result t r' = result t r`)
+is `FeelNumber`'s numeric equality, the `≤` of `min_spec` / `max_spec` is its numeric order,
+and COLLECT+ is the exact sum inside the 34-digit envelope. -/
+
+/-- Two FEEL numbers (`Dec`: sign, coefficient, exponent as the evaluator holds them) are the
+same model value iff `FeelNumber: PartialEq` (`number.rs:218`, `Dec.beq`) says they are equal —
+`1.0`, `1.00` and `1` are one value — and they are ordered as `FeelNumber: PartialOrd` orders
+them (`number.rs:236`, `Dec.lt`). -/
+theorem num_numeric (a b : Dec) :
+    (DTValue.num (DNum.ofDec a) = DTValue.num (DNum.ofDec b) ↔ Dec.beq a b = true) ∧
+    (DNum.ofDec a < DNum.ofDec b ↔ Dec.lt a b = true) := by
+  refine ⟨?_, DNum.ofDec_lt_iff a b⟩
+  rw [← DNum.ofDec_eq_iff]
+  constructor
+  · intro h; injection h
+  · intro h; rw [h]
+
+/-- The order of the model's numbers is the order of their rational values, the sum is the sum
+of the values, and two numbers with the same value are the same number: `min_spec` / `max_spec`
+name *the* least / greatest value. -/
+theorem num_order_spec (a b : DNum) :
+    (a < b ↔ DNum.val a < DNum.val b) ∧ (a ≤ b ↔ DNum.val a ≤ DNum.val b) ∧
+    DNum.val (a + b) = DNum.val a + DNum.val b ∧ (DNum.val a = DNum.val b → a = b) :=
+  ⟨DNum.lt_iff_val a b, DNum.le_iff_val a b, DNum.val_add a b, DNum.val_injective⟩
+
+/-- COLLECT+ inside the 34-digit envelope (every partial sum, taken from the left as the code
+does, has at most 34 digits): the result is the exact sum of the matching outputs — as a rational
+number, the sum of their values.  (Outside the envelope `sum_spec` still holds: each partial sum
+is rounded half-even to 34 digits, `DNum.addR`.) -/
+theorem sum_exact (t : Table) (wf : t.WF = true) (hp : t.hitPolicy = .collectSum)
+    (hne : matchingRules t ≠ []) (hc : t.componentNames.length ≤ 1)
+    (n : DNum) (ns : List DNum) (h : allNums (firsts t) = some (n :: ns)) (henv : DNum.SumFits n ns) :
+    evaluate t = .ok (.num (ns.foldl (· + ·) n)) ∧
+    DNum.val (ns.foldl (· + ·) n) = DNum.val n + (ns.map DNum.val).sum := by
+  refine ⟨?_, DNum.val_foldl_add n ns⟩
+  obtain ⟨h1, h2, _⟩ := sum_spec t wf hp hne
+  rw [h1, if_neg (by omega), h2 n ns h, DNum.foldl_addR_of_fits n ns henv]
+
+/-- Non-vacuity, with decimals: 0.15 + 0.1 + 2.25 = 2.5 (a sum whose fraction digits cancel),
+-0.5 + 0.5 = 0, and a sum of 34-digit values that stays inside the envelope. -/
+example :
+    let t : Table := ⟨.collectSum, [], [.none], [.none],
+      [⟨[.t], [.num (DNum.norm 15 2)]⟩, ⟨[.f], [.num 7]⟩, ⟨[.t], [.num (DNum.norm 1 1)]⟩, ⟨[.t], [.num (DNum.norm 225 2)]⟩]⟩
+    t.WF = true ∧ allNums (firsts t) = some [DNum.norm 15 2, DNum.norm 1 1, DNum.norm 225 2] ∧
+    DNum.SumFits (DNum.norm 15 2) [DNum.norm 1 1, DNum.norm 225 2] ∧
+    evaluate t = .ok (.num (DNum.norm 25 1)) := by decide
+
+example : evaluate ⟨.collectSum, [], [.none], [.none],
+      [⟨[.t], [.num (DNum.norm (-5) 1)]⟩, ⟨[.t], [.num (DNum.norm 5 1)]⟩]⟩ = .ok (.num 0) := by decide
+
+/-- Outside the envelope the sum is rounded as `+=` rounds it: 9999999999999999999999999999999999
+(34 nines) + 0.5 = 10^34 (half-even: the tie goes to the even neighbour), + 0.4 leaves it unchanged. -/
+example :
+    evaluate ⟨.collectSum, [], [.none], [.none],
+      [⟨[.t], [.num 9999999999999999999999999999999999]⟩, ⟨[.t], [.num (DNum.norm 5 1)]⟩]⟩ =
+      .ok (.num 10000000000000000000000000000000000) ∧
+    evaluate ⟨.collectSum, [], [.none], [.none],
+      [⟨[.t], [.num 9999999999999999999999999999999999]⟩, ⟨[.t], [.num (DNum.norm 4 1)]⟩]⟩ =
+      .ok (.num 9999999999999999999999999999999999) ∧
+    ¬ DNum.SumFits 9999999999999999999999999999999999 [DNum.norm 5 1] := by decide
+
+/-- ANY and trailing zeros: outputs written `1.0`, `1.00` and `1` are one value, so the rules
+agree and the result is that value; `1.10` and `1.1` likewise, `1.10` and `1.01` differ. -/
+example :
+    (DNum.norm 10 1 = 1 ∧ DNum.norm 100 2 = 1 ∧ DNum.norm 110 2 = DNum.norm 11 1) ∧
+    evaluate ⟨.any, [], [.none], [.none],
+      [⟨[.t], [.num (DNum.norm 10 1)]⟩, ⟨[.t], [.num (DNum.norm 100 2)]⟩, ⟨[.t], [.num 1]⟩]⟩ = .ok (.num 1) ∧
+    evaluate ⟨.any, [], [.none], [.none],
+      [⟨[.t], [.num (DNum.norm 110 2)]⟩, ⟨[.t], [.num (DNum.norm 101 2)]⟩]⟩ = .ok .null := by decide
+
+/-- C< / C> among decimals that differ in the 20th digit, and PRIORITY with decimal output values. -/
+example :
+    evaluate ⟨.collectMin, [], [.none], [.none],
+      [⟨[.t], [.num (DNum.norm 12345678901234567891 19)]⟩, ⟨[.t], [.num (DNum.norm 12345678901234567890 19)]⟩,
+       ⟨[.t], [.num (DNum.norm 12345678901234567892 19)]⟩]⟩ = .ok (.num (DNum.norm 1234567890123456789 18)) ∧
+    evaluate ⟨.collectMax, [], [.none], [.none],
+      [⟨[.t], [.num (DNum.norm 12345678901234567891 19)]⟩, ⟨[.t], [.num (DNum.norm 12345678901234567890 19)]⟩,
+       ⟨[.t], [.num (DNum.norm 12345678901234567892 19)]⟩]⟩ = .ok (.num (DNum.norm 12345678901234567892 19)) ∧
+    evaluate ⟨.priority, [], [.exprList [.num (DNum.norm 15 2), .num (DNum.norm (-5) 1)]], [.none],
+      [⟨[.t], [.num (DNum.norm (-50) 2)]⟩, ⟨[.t], [.num (DNum.norm 150 3)]⟩]⟩ = .ok (.num (DNum.norm 15 2)) := by decide
 
 /-
 FULL STATEMENT (not provable of the current code, finding F61-collect-temporal):
